@@ -45,6 +45,49 @@ theorem parseSources_unclosed {Pc : Type} (pp : P Pipeline) (ps : Pc → Str) (p
   simp only [parseSources, opt, pchar, if_true, R.bind_ok, ws0_eq, sepList0, h1, hloop _ [pt p] hfuel]
   rfl
 
+/-- **missing `]`** (whole text): an operation whose source list — any written pipelines separated by
+    commas — is still open at the end of the text is rejected. -/
+theorem parseVpl_unclosed {name : Str} (hn : IsIdent name) (d : Nat) (p : CPipe d) (more : List (CPipe d))
+    (hp : WF d p) (hm : ∀ q ∈ more, WF d q) :
+    parseVpl (name ++ '[' :: (render d p ++ (more.map (chunkPipe (render d))).flatten)) = .err := by
+  obtain ⟨c, t, hc, hcw⟩ := IsIdent.head hn
+  -- fuel: the text is longer than every nesting depth inside it
+  let body := render d p ++ (more.map (chunkPipe (render d))).flatten
+  have hlen_p := depthOf_len d p hp
+  have hlen_q : ∀ q ∈ more, depthOf d q + 1 ≤ body.length := by
+    intro q hq
+    have h1 := depthOf_len d q (hm q hq)
+    have h2 : (chunkPipe (render d) q).length ≤ ((more.map (chunkPipe (render d))).flatten).length := by
+      have := listMax_le_flatten (fun x => (chunkPipe (render d) x).length) (chunkPipe (render d)) more (fun _ _ => Nat.le_refl _)
+      exact Nat.le_trans (le_listMax (fun x => (chunkPipe (render d) x).length) more q hq) this
+    simp only [chunkPipe, List.length_cons] at h2
+    simp only [body, List.length_append]; omega
+  have hname : 1 ≤ name.length := by rw [hc]; simp
+  obtain ⟨k, hk⟩ : ∃ k, (name ++ '[' :: body).length = k + 2 := ⟨(name ++ '[' :: body).length - 2, by
+    simp only [List.length_append, List.length_cons]; omega⟩
+  have hkp : depthOf d p ≤ k := by
+    simp only [List.length_append, List.length_cons, body] at hk; omega
+  have hkq : ∀ q ∈ more, depthOf d q ≤ k := by
+    intro q hq; have := hlen_q q hq
+    simp only [List.length_append, List.length_cons] at hk; omega
+  have hpp : PipeOK (parsePipeline (k + 2)) (render d) (treeOf d)
+      (CPipeF.WF (fun n => nodeWF d n ∧ nodeDepth d n ≤ k)) := pipe_ok _ _ _ _ (node_fam d k)
+  have hs : parseSources (parsePipeline (k + 2)) ('[' :: body) = .failure :=
+    parseSources_unclosed (parsePipeline (k + 2)) (render d) (treeOf d) _ hpp p more
+    (pipeWF_depth _ _ p k hp hkp) (fun q hq => pipeWF_depth _ _ q k (hm q hq) (hkq q hq))
+  have h1 : parseIdent (name ++ '[' :: body) = .ok ('[' :: body) name :=
+    parseIdent_ok hn (NoHead.cons (by rfl) _)
+  have h2 : parseProperty ('[' :: body) = .error := parseProperty_error (NoHead.cons (by rfl) _)
+  have hcore : parseVplCore (name ++ '[' :: body) = .err := by
+    simp only [parseVplCore, hk]
+    show (match parsePipelineWith (parseNode (parsePipeline (k + 2))) (name ++ '[' :: body) with
+      | .ok [] p => Verdict.ok p | .ok (_ :: _) _ => .err | .error => .err | .failure => .err | .oof => .oof) = .err
+    simp only [parsePipelineWith, ws0_eq, R.bind_ok, sepList1, parseNode, dropWs_idem, dropWs_of_headNotWs hc hcw, h1,
+      dropWs_cons_of_not (by rfl : isWs '[' = false), sepList0, h2, hs, R.bind_failure]
+  show parseVpl (name ++ '[' :: body) = .err
+  simp only [parseVpl, hcore]
+  split <;> rfl
+
 /-! ## typed parameters -/
 
 theorem fieldOk_missing_required (props : List (Str × List Str)) (f : Str) (h : lookupProp props f = none) :
